@@ -22,6 +22,7 @@ BUILD = os.path.join(VERIF, ".build")
 OUT = os.path.join(VERIF, "out")
 SPEC = os.path.join(VERIF, "spec")
 T0 = time.time()
+BUILD_DIR = BUILD  # where build_harness put the binaries of this run
 
 
 class Infra(Exception):
@@ -70,13 +71,29 @@ atexit.register(_cleanup)
 
 def build_harness(cmds, race=False, tags="verif"):
     """Build harness commands from /verif/harness against the CURRENT working tree of /repo."""
-    os.makedirs(BUILD, exist_ok=True)
     h = os.path.join(VERIF, "harness")
-    shutil.copyfile(os.path.join(REPO, "go.sum"), os.path.join(h, "go.sum"))
+    bdir = BUILD
+    modfile = []
+    if os.path.realpath(REPO) != "/repo":
+        # VERIF_REPO=<scratch worktree>: build against that tree without touching /repo or the shared
+        # go.mod (used to try the checks on seeded changes); binaries go to a private directory.
+        d = scratch("modfile-")
+        with open(os.path.join(h, "go.mod")) as fh:
+            gm = fh.read().replace("=> /repo", "=> " + os.path.realpath(REPO))
+        with open(os.path.join(d, "go.mod"), "w") as fh:
+            fh.write(gm)
+        shutil.copyfile(os.path.join(REPO, "go.sum"), os.path.join(d, "go.sum"))
+        modfile = ["-modfile=" + os.path.join(d, "go.mod")]
+        bdir = os.path.join(d, "bin")
+    else:
+        shutil.copyfile(os.path.join(REPO, "go.sum"), os.path.join(h, "go.sum"))
+    os.makedirs(bdir, exist_ok=True)
+    global BUILD_DIR
+    BUILD_DIR = bdir
     outs = {}
     for c in cmds:
-        out = os.path.join(BUILD, c + ("-race" if race else ""))
-        args = ["go", "build", "-tags", tags]
+        out = os.path.join(bdir, c + ("-race" if race else ""))
+        args = ["go", "build", "-tags", tags] + modfile
         if race:
             args.append("-race")
         args += ["-o", out, "./cmd/" + c]
@@ -211,11 +228,16 @@ class Findings:
     """
 
     def __init__(self):
-        with open(os.path.join(VERIF, "known_findings.json")) as fh:
-            data = json.load(fh)
         self.by = {}
-        for f in data.get("findings", []):
-            self.by[(f["property"], f["class"])] = f
+        files = [os.path.join(VERIF, "known_findings.json")]
+        kd = os.path.join(VERIF, "known_findings.d")
+        if os.path.isdir(kd):
+            files += sorted(os.path.join(kd, f) for f in os.listdir(kd) if f.endswith(".json"))
+        for p in files:
+            with open(p) as fh:
+                data = json.load(fh)
+            for f in data.get("findings", []):
+                self.by[(f["property"], f["class"])] = f
 
     def known(self, prop, cls):
         return self.by.get((prop, cls))
